@@ -199,7 +199,9 @@ func (b TxB) Box(from Key, subs types.Transactions, exp uint64) *types.Transacti
 	if err != nil {
 		panic(err)
 	}
-	return Sign(b.raw(params.BoxTx, from.Addr, nil, nil, 3000000, data, exp), from)
+	// the box's own gas is its fixed price only (sub-txs buy their own gas): a small limit lets a box fit into a
+	// nearly full block while its sub-txs do not
+	return Sign(b.raw(params.BoxTx, from.Addr, nil, nil, 100000, data, exp), from)
 }
 
 // Unsigned returns an unsigned transfer from an arbitrary address (multisig / tamper bases).
